@@ -383,10 +383,15 @@ type ReplaceMap struct {
 }
 
 func (m ReplaceMap) Get(key string) (Value, bool) {
+	o, ok := m.orig.Get(key)
+	if !ok {
+		// only the keys of the original map are available, see Iter and Size
+		return nil, false
+	}
 	if e, ok := m.rep.Get(key); ok {
 		return e, true
 	}
-	return m.orig.Get(key)
+	return o, true
 }
 
 func (m ReplaceMap) Iter(yield func(key string, v Value) bool) {
@@ -423,14 +428,16 @@ func (m ReplaceMap) createFlat() MapStorage {
 
 func (v Map) Merge(other Map) (Map, error) {
 	var exists string
+	found := false
 	other.Iter(func(key string, val Value) bool {
 		if _, ok := v.Get(key); ok {
 			exists = key
+			found = true
 			return false
 		}
 		return true
 	})
-	if exists != "" {
+	if found {
 		return EmptyMap, fmt.Errorf("first map already contains key '%s'", exists)
 	}
 	return Map{MergeMap{a: v.m, b: other.m}}, nil
